@@ -84,4 +84,49 @@ RMax(F, LL, i, G, c) == LET K == KidsOf(F, c) IN
    IF K = {} THEN [k \in Idx(G) |-> NodeLL(LL, Own(F, c), i, k)]
    ELSE LET s == RunMax(DMax(F, LL, i, G, K), G) IN [k \in Idx(G) |-> NodeLL(LL, Own(F, c), i, k) + s[k]]
 BestRec(F, LL, i, G) == RunMax(DMax(F, LL, i, G, Roots(F)), G)[G - 1]
+
+\* ---------------------------------------------------------------- max-product with back-pointers and traceback (map.py)
+\* tuples of length G, entry k+1 = grid index k.  Children are processed in a fixed arbitrary order (KidSeq).
+KidSeq(F, c) == SetToSeq(IF c = {} THEN Roots(F) ELSE KidsOf(F, c))
+ArgMaxLargest(S, val(_)) == CHOOSE j \in S : \A j2 \in S : val(j) >= val(j2) /\ (val(j2) = val(j) => j2 <= j)   \* ties: the largest index (">=" in the loop)
+\* one child: D'[k] = max_j childR[j] + D[k-j], choice[k] = the maximising j
+DStepT(childR, prevD, G) ==
+  LET ch == Strict([k \in 1..G |-> ArgMaxLargest(0..(k - 1), LAMBDA j : childR[j + 1] + prevD[k - j])])
+  IN [d |-> Strict([k \in 1..G |-> childR[ch[k] + 1] + prevD[k - ch[k]]]), ch |-> ch]
+\* S[k] = running maximum of D with the index where it is attained (ties: the earlier index)
+SStepT(d, G) ==
+  LET RECURSIVE Go(_, _, _)
+      Go(k, s, c) == IF k > G THEN [s |-> s, c |-> c]
+                     ELSE IF d[k] > s[k - 1] THEN Go(k + 1, Append(s, d[k]), Append(c, k - 1))
+                          ELSE Go(k + 1, Append(s, s[k - 1]), Append(c, c[k - 1]))
+  IN Go(2, <<d[1]>>, <<0>>)
+RECURSIVE NodeTB(_, _, _, _, _)
+\* forward tables of clone c (c = {} : virtual root): [r, dch (one choice tuple per child, in KidSeq order), sch]
+NodeTB(F, LL, i, G, c) ==
+  LET kids == KidSeq(F, c)
+      own == IF c = {} THEN Strict([k \in 1..G |-> 0]) ELSE Strict([k \in 1..G |-> NodeLL(LL, Own(F, c), i, k - 1)])
+  IN IF Len(kids) = 0 THEN [r |-> own, dch |-> <<>>, sch |-> Strict([k \in 1..G |-> k - 1])]
+     ELSE LET RECURSIVE Fold(_, _, _)
+              Fold(n, d, chs) == IF n > Len(kids) THEN [d |-> d, chs |-> chs]
+                                 ELSE LET st == DStepT(NodeTB(F, LL, i, G, kids[n]).r, d, G) IN Fold(n + 1, st.d, Append(chs, st.ch))
+              fd == Fold(1, Strict([k \in 1..G |-> 0]), <<>>)
+              ss == SStepT(fd.d, G)
+          IN [r |-> Strict([k \in 1..G |-> own[k] + ss.s[k]]), dch |-> fd.chs, sch |-> ss.c]
+RECURSIVE Traceback(_, _, _, _, _, _)
+\* assignment (clade -> grid index) of the subtree below c given c's own index idx
+Traceback(F, LL, i, G, c, idx) ==
+  LET kids == KidSeq(F, c)
+      tb == NodeTB(F, LL, i, G, c)
+      RECURSIVE Back(_, _)
+      Back(n, total) == IF n = 0 THEN << >>
+                        ELSE LET ci == tb.dch[n][total + 1] IN
+                             (kids[n] :> ci) @@ Traceback(F, LL, i, G, kids[n], ci) @@ Back(n - 1, total - ci)
+  IN IF Len(kids) = 0 THEN << >> ELSE Back(Len(kids), tb.sch[idx + 1])
+MapAssignment(F, LL, i, G) == Traceback(F, LL, i, G, {}, G - 1)
+TracebackFeasibleOptimal(F, LL, i, G) ==
+  LET a == MapAssignment(F, LL, i, G) IN
+  /\ DOMAIN a = F
+  /\ \A c \in F : a[c] \in Idx(G)
+  /\ FeasibleTop(F, a, G)
+  /\ Score(F, LL, i, a) = BestDef(F, LL, i, G)
 =============================================================================
